@@ -52,12 +52,17 @@ def run_case(seed, params=None):
         ragged = bool(params.get("ragged")) and rng.random() < 0.5
         cv, kind, T, s, cap, acc, slotted, il, cparams = make_conveyor(env, rng, params.get("kind"), ragged)
         sh = mon.label(cv.belt, kind, cv)
-        orc = ConveyorOracle(mon, sh, T, s, cap, acc, slotted, ragged)
+        # mixed: items of different lengths (multiples of the belt's nominal item length) on one continuous belt
+        mixed = bool(params.get("mixed")) and not slotted and not ragged
+        orc = ConveyorOracle(mon, sh, T, s, cap, acc, slotted, ragged, mixed)
+        lens = [m for m in (1, 1, 1, 2, 3, 3, 4, 0.5) if m * s <= T] if mixed else [1]
         H = Hist()
         nitems = rng.randint(8, 40)
         arr = rng.choice(("regular", "bursty", "irregular", "saturating"))
         cons = rng.choice(("eager", "eager", "short_stalls", "long_stalls", "repeated", "stall_on_entry")) if not params.get("eager") else "eager"
-        aligned = bool(params.get("aligned")) or rng.random() < 0.4
+        if mixed and rng.random() < 0.6:
+            cons = rng.choice(("repeated", "short_stalls", "repeated_short"))   # several short stalls while a long item is still entering
+        aligned = (bool(params.get("aligned")) or rng.random() < 0.4) and not (mixed and cons == "repeated_short")
         if aligned:
             arr = "aligned"
             cons = "aligned"
@@ -69,7 +74,8 @@ def run_case(seed, params=None):
                 tok = cv.reserve_put()
                 yield tok
                 it = Item(f"{tag}i{i}")
-                it.length = il
+                it.mon_len_steps = rng.choice(lens) if mixed else 1
+                it.length = il * it.mon_len_steps
                 cv.put(tok, it)
                 H.log("p", "put", it.id, env.now)
                 if arr == "aligned":
@@ -102,6 +108,8 @@ def run_case(seed, params=None):
                     yield env.timeout(rng.choice((s / 2, s, 0.3, 1.5 * s)))
                 elif cons == "long_stalls" and k % 4 == 0:
                     yield env.timeout(rng.choice((T, 2 * T, T + 0.37, 5)))
+                elif cons == "repeated_short":
+                    yield env.timeout(rng.choice((s / 4, s / 2, s / 2, 0.1, s)))
                 elif cons == "repeated":
                     yield env.timeout(rng.choice((0, 0, s, 2 * s, 0.4, T / 2)))
                 elif cons == "stall_on_entry" and k % 2 == 0:
@@ -132,7 +140,7 @@ def run_case(seed, params=None):
     res["nontrivial"]["C12"] = bool(getattr(orc, "nontrivial12", False)) or (len(orc.items) >= 8 and orc.n_exact >= 4 if hasattr(orc, "n_exact") else False)
     res["nontrivial"]["C13"] = bool(getattr(orc, "nontrivial13", False))
     res["spec"] = {"engine": "E4", "seed": seed, "kind": kind, "arrivals": arr, "consumer": cons, "items": nitems, "geometry": cparams, "aligned": aligned,
-                   "T": T, "step": s, "ragged": ragged, "companion_belt": orc2 is not None}
+                   "T": T, "step": s, "ragged": ragged, "companion_belt": orc2 is not None, "mixed_lengths": bool(params.get("mixed"))}
     return res
 
 
